@@ -29,10 +29,10 @@ def run(ctx, focus='C11'):
     from lib_guesser.omen.optimizer import Optimizer
     root = common.scratch_dir('rules')
     for i in range(ctx.scale(25, 300)):
-        pws, ngram, mode = ct.gen_training(rng)
+        pws, ngram, mode, maxlen = ct.gen_training(rng)
         asize = rng.choice([100, 100, 2, 3])
         try:
-            al, alphabet = ct.build(pws, ngram, asize)
+            al, alphabet = ct.build(pws, ngram, asize, maxlen)
         except ZeroDivisionError:
             continue        # no password long enough for an n-gram: the trainer itself stops here, no ruleset is written
         if not al.grammar:
@@ -58,7 +58,7 @@ def run(ctx, focus='C11'):
                 sc = OmenScorer(rd, rule_enc, 18)
             g = corr_omen.load_real(os.path.join(rd, 'Omen'))
         except Exception as e:
-            viol.append({'property': focus, 'kind': 'scorer-omen-encoding' if rule_enc != 'utf-8' else 'loader-raised', 'error': repr(e)[:200], 'witness': {'passwords': pws, 'ngram': ngram, 'alphabet_size': asize}})
+            viol.append({'property': focus, 'kind': 'scorer-omen-encoding' if rule_enc != 'utf-8' else 'loader-raised', 'error': repr(e)[:200], 'witness': {'passwords': pws, 'ngram': ngram, 'alphabet_size': asize, 'max_length': maxlen}})
             continue
         # the guesser's view: enumerate levels while they stay small
         glevel, total, lmax = {}, 0, -1
@@ -78,7 +78,7 @@ def run(ctx, focus='C11'):
             ops.append(f"ot.keyspace {10 ** 10} 18")
             # the model keyspace with the default cut-off is compared with the real function's default run
             with contextlib.redirect_stdout(io.StringIO()):
-                al2, _ = ct.build(pws, ngram, asize)
+                al2, _ = ct.build(pws, ngram, asize, maxlen)
                 ks_def = calc_omen_keyspace(al2)
             exp.append(' '.join(['k'] + [f"{l}:{k}" for l, k in sorted(ks_def.items())]))
             for L, k in sorted(listed.items()):
@@ -86,7 +86,7 @@ def run(ctx, focus='C11'):
                     if per_level[L] != k:
                         viol.append({'property': 'C18', 'kind': 'keyspace-partial-at-cutoff' if L == max(listed) and max(listed) < 18 else 'keyspace-mismatch',
                                      'level': L, 'saved': k, 'emitted': per_level[L],
-                                     'witness': {'passwords': pws, 'ngram': ngram, 'alphabet_size': asize}})
+                                     'witness': {'passwords': pws, 'ngram': ngram, 'alphabet_size': asize, 'max_length': maxlen}})
                     ops.append(f"ot.enumcount {L} 30000")
                     exp.append(f"n={per_level[L]}")
             # saved probability = fraction of training passwords at the level / keyspace
@@ -100,24 +100,26 @@ def run(ctx, focus='C11'):
                     if L in probs:
                         viol.append({'property': 'C18', 'kind': 'prob-for-empty-level', 'level': L, 'witness': {'passwords': pws, 'ngram': ngram}})
                     continue
-                want = (lc[L] / len(pws)) / k
+                # the count is taken from what the guesser really emits at the level where that was enumerated
+                cnt = sum(1 for p_ in pws if glevel.get(p_) == [L]) if L <= lmax else lc[L]
+                want = (cnt / len(pws)) / k
                 if probs.get(L) != want:
                     viol.append({'property': 'C18', 'kind': 'saved-probability', 'level': L, 'saved': probs.get(L), 'want': want,
-                                 'witness': {'passwords': pws, 'ngram': ngram, 'alphabet_size': asize}})
+                                 'witness': {'passwords': pws, 'ngram': ngram, 'alphabet_size': asize, 'max_length': maxlen}})
             if len(listed) >= 2 and any(per_level.get(L, 0) > 0 for L in listed):
                 nontrivial += 1
             if len(samples) < 3:
                 samples.append({'passwords': pws[:6], 'ngram': ngram, 'keyspace': sorted(listed.items())[:6], 'emitted': sorted(per_level.items())[:6]})
             continue
         # C11: compare the three implementations (and the model) on candidate strings
-        cands = ct.candidates(rng, pws, alphabet or 'a', ngram)
+        cands = ct.candidates(rng, pws, alphabet or 'a', ngram, maxlen)
         agree_nontrivial = 0
         for s in cands:
             t = find_omen_level(al, s)
             sl = sc.parse(s)
             if len(s) < ngram:
                 dist['below_ngram'] += 1
-            if len(s) > 21:
+            if len(s) > maxlen:
                 dist['above_max'] += 1
             if any(ch not in alphabet for ch in s):
                 dist['out_of_alphabet'] += 1
@@ -126,13 +128,13 @@ def run(ctx, focus='C11'):
             exp.append(f"t={t} s={sl} g={t}")
             if t != sl:
                 viol.append({'property': 'C11', 'kind': 'trainer-scorer-differ', 'string': s, 'trainer': t, 'scorer': sl,
-                             'witness': {'passwords': pws, 'ngram': ngram, 'alphabet_size': asize, 'string': s}})
+                             'witness': {'passwords': pws, 'ngram': ngram, 'alphabet_size': asize, 'max_length': maxlen, 'string': s}})
             if t != -1 and t <= lmax and gl != [t]:
                 viol.append({'property': 'C11', 'kind': 'guesser-level-differs', 'string': s, 'trainer': t, 'guesser': gl,
-                             'witness': {'passwords': pws, 'ngram': ngram, 'alphabet_size': asize, 'string': s}})
+                             'witness': {'passwords': pws, 'ngram': ngram, 'alphabet_size': asize, 'max_length': maxlen, 'string': s}})
             if t == -1 and gl:
                 viol.append({'property': 'C11', 'kind': 'guesser-generates-ungeneratable', 'string': s, 'guesser': gl,
-                             'witness': {'passwords': pws, 'ngram': ngram, 'alphabet_size': asize, 'string': s}})
+                             'witness': {'passwords': pws, 'ngram': ngram, 'alphabet_size': asize, 'max_length': maxlen, 'string': s}})
             if t != -1 and gl:
                 agree_nontrivial += 1
         # everything the guesser enumerated has that level for trainer and scorer
@@ -140,7 +142,7 @@ def run(ctx, focus='C11'):
             t = find_omen_level(al, s)
             if ls != [t] or sc.parse(s) != t:
                 viol.append({'property': 'C11', 'kind': 'enumerated-string-level', 'string': s, 'guesser': ls, 'trainer': t, 'scorer': sc.parse(s),
-                             'witness': {'passwords': pws, 'ngram': ngram, 'alphabet_size': asize, 'string': s}})
+                             'witness': {'passwords': pws, 'ngram': ngram, 'alphabet_size': asize, 'max_length': maxlen, 'string': s}})
                 break
         # the saved per-level counts describe what the guesser produces: every counted training password is emitted at its level
         if agree_nontrivial >= 3:
@@ -178,7 +180,7 @@ def replay(ctx, payload, focus='C11'):
     common.use_impl()
     from lib_trainer.omen.evaluate_password import find_omen_level, calc_omen_keyspace
     from lib_guesser.omen.optimizer import Optimizer
-    al, alphabet = ct.build(w['passwords'], w['ngram'], w.get('alphabet_size', 100))
+    al, alphabet = ct.build(w['passwords'], w['ngram'], w.get('alphabet_size', 100), w.get('max_length', 21))
     with contextlib.redirect_stdout(io.StringIO()):
         ks = calc_omen_keyspace(al)
     rd = os.path.join(common.scratch_dir('rules'), 'replay11')
